@@ -211,8 +211,8 @@ func GenResult(t *simrt.Tape, o GenOpts) (r vegeta.Result, err error) {
 }
 
 // DiffResults compares two results field by field (by reflection) under the
-// weak equality of the design: nil and empty slices/maps are equal, times are
-// compared as instants. It returns "" when equal, else the first difference.
+// equality of Result.Equal: nil and empty byte slices are equal (no codec keeps them apart), a nil
+// header map differs from an empty one (every codec keeps them apart), times are compared as instants. It returns "" when equal, else the first difference.
 func DiffResults(a, b *vegeta.Result) string {
 	va, vb := reflect.ValueOf(a).Elem(), reflect.ValueOf(b).Elem()
 	for i := 0; i < va.NumField(); i++ {
@@ -231,6 +231,11 @@ func DiffResults(a, b *vegeta.Result) string {
 				return fmt.Sprintf("%s: %d bytes != %d bytes (or content)", sf.Name, fa.Len(), fb.Len())
 			}
 		case sf.Type.Kind() == reflect.Map:
+			// every codec keeps a nil map (no response) apart from an empty one (a response without header
+			// lines), and Result.Equal tells them apart
+			if fa.IsNil() != fb.IsNil() {
+				return fmt.Sprintf("%s: nil map is %v, want %v (nil = no response, empty = a response without headers)", sf.Name, fb.IsNil(), fa.IsNil())
+			}
 			if d := diffHeader(fa, fb); d != "" {
 				return sf.Name + ": " + d
 			}
